@@ -184,6 +184,15 @@ func zeroOf(t types.Type) Val {
 		}
 	case *types.Interface, *types.Pointer, *types.Slice, *types.Map:
 		return Val{K: VNil}
+	case *types.Struct:
+		out := Val{K: VStruct, F: map[string]Val{}}
+		if named, ok := t.(*types.Named); ok {
+			out.S = named.Obj().Name()
+		}
+		for i := 0; i < u.NumFields(); i++ {
+			out.F[u.Field(i).Name()] = zeroOf(u.Field(i).Type())
+		}
+		return out
 	}
 	return Val{K: VOpaque, S: "zero " + t.String()}
 }
@@ -311,6 +320,31 @@ func (e *cEnv) assign(lhs ast.Expr, v Val, define bool) error {
 	if idx, _, ok := e.p.fieldOf(lhs); ok && e.sym != nil {
 		return e.sym.write(idx, v, lhs)
 	}
+	// field of a local record: r.f = v
+	if se, ok := lhs.(*ast.SelectorExpr); ok {
+		if id, ok := se.X.(*ast.Ident); ok {
+			if obj := e.p.Info.Uses[id]; obj != nil {
+				if cur, has := e.vars[obj]; has && cur.K == VStruct {
+					nf := make(map[string]Val, len(cur.F))
+					for k, x := range cur.F {
+						nf[k] = x
+					}
+					if sel := e.p.Info.Selections[se]; sel != nil {
+						if v.K == VInt {
+							v.I = wrapInt(sel.Obj().Type(), v.I)
+						}
+						if v.K == VBits {
+							v = resizeBits(v, intWidth(sel.Obj().Type()))
+						}
+					}
+					nf[se.Sel.Name] = v
+					cur.F = nf
+					e.vars[obj] = cur
+					return nil
+				}
+			}
+		}
+	}
 	if st, ok := lhs.(*ast.StarExpr); ok && e.sym != nil {
 		pv, err := e.eval(st.X)
 		if err != nil {
@@ -437,7 +471,7 @@ func (e *cEnv) exec(s ast.Stmt) (ctrl, Val, error) {
 		}
 		// op-assign
 		ops := map[token.Token]token.Token{token.ADD_ASSIGN: token.ADD, token.SUB_ASSIGN: token.SUB, token.MUL_ASSIGN: token.MUL,
-			token.OR_ASSIGN: token.OR, token.AND_ASSIGN: token.AND, token.XOR_ASSIGN: token.XOR, token.SHL_ASSIGN: token.SHL, token.SHR_ASSIGN: token.SHR, token.AND_NOT_ASSIGN: token.AND_NOT}
+			token.QUO_ASSIGN: token.QUO, token.REM_ASSIGN: token.REM, token.OR_ASSIGN: token.OR, token.AND_ASSIGN: token.AND, token.XOR_ASSIGN: token.XOR, token.SHL_ASSIGN: token.SHL, token.SHR_ASSIGN: token.SHR, token.AND_NOT_ASSIGN: token.AND_NOT}
 		op, ok := ops[st.Tok]
 		if !ok || len(st.Lhs) != 1 || len(st.Rhs) != 1 {
 			return cNext, Val{}, undecidedf(s, "assignment operator %s", st.Tok)
